@@ -101,7 +101,10 @@ MCCat17 == <<
   [T |-> MpM, vals |-> <<[nil |-> TRUE, m |-> <<>>], [nil |-> FALSE, m |-> << <<I(4), <<118>>>> >>]>>, cfg |-> "mkboth"],
   [T |-> MpM, vals |-> <<[nil |-> TRUE, m |-> <<>>], [nil |-> FALSE, m |-> << <<I(4), <<118>>>> >>]>>, cfg |-> "pkg"],
   \* a codec registered under a tag for a struct-kind type (time.Time under flattime), as a value and behind a pointer
-  [T |-> TQ, vals |-> <<TQz, TQv>>, cfg |-> "bq"]
+  [T |-> TQ, vals |-> <<TQz, TQv>>, cfg |-> "bq"],
+  \* a registration for the basic type int32 on one instance: the named type without a registration of its own falls back to it, on that instance only
+  [T |-> TA, vals |-> <<TAz, TAv>>, cfg |-> "mkkind"], [T |-> MkT, vals |-> <<I(0), Neg(1)>>, cfg |-> "mkkind"],
+  [T |-> SlM, vals |-> <<[nil |-> TRUE, e |-> <<>>], [nil |-> FALSE, e |-> <<I(1), I(128)>>]>>, cfg |-> "mkkind"]
 >>
 \* the instance configurations really differ on these items: an option or registration of one instance that leaked into
 \* another would change the bytes
@@ -111,9 +114,10 @@ ScopedDiffer == /\ Encode(CfgN("default"), Bake(TA, ""), TAv) # Encode(CfgN("mk"
                 /\ Encode(CfgN("pkg"), Bake(TA, ""), TAv) = Encode(CfgN("default"), Bake(TA, ""), TAv)
                 /\ Encode(CfgN("mktag"), Bake(TA, ""), TAv) = Encode(CfgN("default"), Bake(TA, ""), TAv)     \* a tagged registration does not apply to untagged positions
                 /\ Encode(CfgN("mktag"), Bake(TB, ""), TBv) # Encode(CfgN("mkboth"), Bake(TB, ""), TBv)
+                /\ Encode(CfgN("default"), Bake(TA, ""), TAv) # Encode(CfgN("mkkind"), Bake(TA, ""), TAv)
 AllIdx == 1..Len(Cat)
 QuickIdx == {1, 4, 5, 6, 9, 13, 14}
-Quick17 == {1, 2, 5, 7, 9, 13, 15}
+Quick17 == {1, 2, 5, 7, 9, 13, 16}
 View == sysvars
 ASSUME PrintT(<<"CATALOGUE", ToJson(Cat)>>)
 \* a history is emitted when it cannot be extended (MaxSteps reached); prefixes are judged as part of it
